@@ -14,6 +14,8 @@ def main(path):
     from . import loader, monitor
     bct = loader.load()
     monitor.install(bct)
+    import numpy as np
+    np.set_printoptions(threshold=4, edgeitems=1, precision=2)      # the workers' process environment
     workload = rec.get('workload') or rec['property']
     mod = importlib.import_module('bctmon.props.' + workload)
     REC = monitor.REC
